@@ -412,7 +412,26 @@ pub fn replay(case: &serde_json::Value) -> i32 {
         crate::env::set_log_mode(crate::env::LOG_OFF);
         println!("ambient configuration B: logger at Trace formatting every record, strict provider that is not ready at once and answers late");
     }
+    if let Ok(pre) = serde_json::from_value::<Case>(case["preceded_by"]["e2e"].clone()) {
+        let j0 = judge(&pre);
+        println!("preceded on this thread by a request with outcome: {}", j0.sut.label());
+    }
     let j1 = judge(&c);
+    if !case["preceded_by"].is_null() {
+        // the second judgement would start from another state; report the first
+        println!("request:\n{}", c.wire.render());
+        println!("implementation: {}", j1.sut.label());
+        return match &j1.disagreement {
+            Some((what, exp, obs)) if j1.known.is_none() => {
+                println!("disagreement: {} expected {} observed {}", what, exp, obs);
+                1
+            }
+            _ => {
+                println!("agrees");
+                0
+            }
+        };
+    }
     let j2 = judge(&c);
     println!("request:\n{}", c.wire.render());
     println!("config: {:?}", c.cfg);
